@@ -79,6 +79,12 @@ func (d *Decoder) unmarshal(val reflect.Value, tagType byte) error {
 	if u != nil {
 		return u.UnmarshalNBT(tagType, d.r)
 	}
+	if tagType == TagList || tagType == TagCompound {
+		if err := d.enter(); err != nil {
+			return err
+		}
+		defer d.leave()
+	}
 
 	switch tagType {
 	default:
@@ -637,6 +643,12 @@ func indirect(v reflect.Value, decodingNull bool) (Unmarshaler, encoding.TextUnm
 // rawRead read and discard a value
 func (d *Decoder) rawRead(tagType byte) error {
 	var buf [8]byte
+	if tagType == TagList || tagType == TagCompound {
+		if err := d.enter(); err != nil {
+			return err
+		}
+		defer d.leave()
+	}
 	switch tagType {
 	default:
 		return fmt.Errorf("unknown to read %#02x", tagType)
